@@ -1354,19 +1354,23 @@ impl StoryState {
 
             if let Some(output_stream_obj) = j_object.get("outputStream") {
                 self.current_flow.output_stream = json_read::jarray_to_runtime_obj_list(
-                    output_stream_obj.as_array().unwrap(),
+                    json_read::as_array(output_stream_obj)?,
                     false,
                 )?;
             }
 
             if let Some(current_choices_obj) = j_object.get("currentChoices") {
                 self.current_flow.current_choices = json_read::jarray_to_runtime_obj_list(
-                    current_choices_obj.as_array().unwrap(),
+                    json_read::as_array(current_choices_obj)?,
                     false,
                 )?
                 .iter()
-                .map(|o| o.clone().into_any().downcast::<Choice>().unwrap())
-                .collect();
+                .map(|o| {
+                    o.clone().into_any().downcast::<Choice>().map_err(|_| {
+                        StoryError::BadJson("currentChoices holds a non-choice.".to_owned())
+                    })
+                })
+                .collect::<Result<Vec<Rc<Choice>>, StoryError>>()?;
             }
 
             let j_choice_threads_obj = j_object.get("choiceThreads");
@@ -1390,7 +1394,7 @@ impl StoryState {
 
         if let Some(eval_stack_obj) = j_object.get("evalStack") {
             self.evaluation_stack =
-                json_read::jarray_to_runtime_obj_list(eval_stack_obj.as_array().unwrap(), false)?;
+                json_read::jarray_to_runtime_obj_list(json_read::as_array(eval_stack_obj)?, false)?;
         }
 
         if let Some(current_divert_target_path) = j_object.get("currentDivertTarget") {
